@@ -71,6 +71,8 @@ type fakeIdp struct {
 	tokenDuration time.Duration
 	sidRequired   bool
 	fixedSid      string
+	discoIssParam bool
+	discoPar      bool
 	seq           int
 	inflight      int
 	maxInflight   int
@@ -115,6 +117,27 @@ func newFakeIdp() *fakeIdp {
 		json.Unmarshal(b, &doc)
 		for _, k := range doc["keys"] {
 			delete(k, "alg")
+		}
+		json.NewEncoder(w).Encode(doc)
+	})
+	// the discovery document, with the member names of OpenID Connect Discovery 1.0 / RFC 8414 / RFC 9126 / RFC 9207 / Front-Channel Logout 1.0 written out
+	// here by hand: the relying party's configuration is built from THIS document by its real decoder, so a slipped JSON tag shows up as lost behaviour
+	mux.HandleFunc("/.well-known/openid-configuration", func(w http.ResponseWriter, r *http.Request) {
+		u := ip.srv.URL
+		doc := map[string]any{
+			"issuer": ip.issuer, "authorization_endpoint": u + "/authorize", "token_endpoint": u + "/token", "jwks_uri": u + "/jwks", "end_session_endpoint": u + "/endsession",
+			"acr_values_supported": []string{"idporten-loa-substantial", "idporten-loa-high"}, "ui_locales_supported": []string{"nb", "nb", "en", "se"},
+			"id_token_signing_alg_values_supported": []string{"RS256"}, "code_challenge_methods_supported": []string{"S256"},
+			"response_types_supported": []string{"code"}, "subject_types_supported": []string{"public"},
+		}
+		if ip.sidRequired {
+			doc["frontchannel_logout_supported"], doc["frontchannel_logout_session_supported"] = true, true
+		}
+		if ip.discoIssParam {
+			doc["authorization_response_iss_parameter_supported"] = true
+		}
+		if ip.discoPar {
+			doc["pushed_authorization_request_endpoint"] = u + "/par"
 		}
 		json.NewEncoder(w).Encode(doc)
 	})
